@@ -40,6 +40,10 @@ type JobDef struct {
 	MayBeVacuous bool `json:"may_be_vacuous,omitempty"`
 	// ReplaySamples: how many passing samples of this job definition are replayed natively (default 2)
 	ReplaySamples int `json:"replay_samples,omitempty"`
+	// MaxSum/SumFrom: keep only the parameter tuples whose entries from index SumFrom on
+	// add up to at most MaxSum (used where a parameter counts parents, items, ...)
+	MaxSum  int64 `json:"max_sum,omitempty"`
+	SumFrom int   `json:"sum_from,omitempty"`
 	// Cross: decide this job a second time with the check's cross_solver and compare
 	Cross bool `json:"cross,omitempty"`
 }
@@ -197,6 +201,20 @@ func cmdCheck(args []string) int {
 		tuples := expandParams(jd.Params)
 		if len(jd.Sets) > 0 {
 			tuples = expandSets(jd.Sets)
+		}
+		if jd.MaxSum > 0 {
+			// keep the tuples whose parameters from position SumFrom on add up to at most MaxSum
+			var kept [][]int64
+			for _, t := range tuples {
+				sum := int64(0)
+				for k := jd.SumFrom; k < len(t); k++ {
+					sum += t[k]
+				}
+				if sum <= jd.MaxSum {
+					kept = append(kept, t)
+				}
+			}
+			tuples = kept
 		}
 		for _, p := range tuples {
 			items = append(items, jobItem{def: jd, spec: JobSpec{Harness: jd.Harness, Params: p}})
